@@ -232,7 +232,37 @@ def prelude(rng):
         sch.EDBSetup(key, copy.deepcopy(db))
 
 
-def run_placement_case(scheme, cid, cfg, db, acc, rng):
+def forked_slot_map(scheme, L, sch, cobj, key, db):
+    """EDBSetup + slot map in a forked child (key None: the child draws its own key). Returns (map, level sizes)."""
+    import os
+    import pickle
+    r, w = os.pipe()
+    pid = os.fork()
+    if pid == 0:
+        try:
+            os.close(r)
+            k = key if key is not None else sch.KeyGen()
+            edb = sch.EDBSetup(k, copy.deepcopy(db))
+            levels = {lvl: len(b) for lvl, b in edb.A_dict.items()} if scheme == "DP17.Pi" else {}
+            out = pickle.dumps((slot_map(scheme, L, sch, cobj, k, edb, db), levels))
+            os.write(w, len(out).to_bytes(4, "big") + out)
+        finally:
+            os._exit(0)
+    os.close(w)
+    data = b""
+    while True:
+        chunk = os.read(r, 1 << 16)
+        if not chunk:
+            break
+        data += chunk
+    os.close(r)
+    os.waitpid(pid, 0)
+    if len(data) < 4 or int.from_bytes(data[:4], "big") != len(data) - 4:
+        raise RuntimeError("forked worker did not report")
+    return pickle.loads(data[4:])
+
+
+def run_placement_case(scheme, cid, cfg, db, acc, rng, forked=False):
     short = gen.SHORT[scheme]
     L = sse.loader(scheme)
     case = sse.case_desc(scheme, cid, cfg, "placement", db)
@@ -247,12 +277,21 @@ def run_placement_case(scheme, cid, cfg, db, acc, rng):
             prelude(rng)
             acc.count("placement.with_prelude")
         edb1 = sch.EDBSetup(key1, copy.deepcopy(db))
-        key2 = key1 if PLACEMENT[scheme] == "same-key" else sch.KeyGen()
-        if with_prelude:
-            prelude(rng)
-        edb2 = sch.EDBSetup(key2, copy.deepcopy(db))
-        m1 = slot_map(scheme, L, sch, cobj, key1, edb1, db)
-        m2 = slot_map(scheme, L, sch, cobj, key2, edb2, db)
+        if forked:
+            # the two setups that are compared run in two worker processes forked now, after the parent's own setup
+            acc.count("placement.forked_pairs")
+            case["forked"] = True
+            same_key = PLACEMENT[scheme] == "same-key"
+            m1, levels1 = forked_slot_map(scheme, L, sch, cobj, key1 if same_key else None, db)
+            m2, _ = forked_slot_map(scheme, L, sch, cobj, key1 if same_key else None, db)
+        else:
+            key2 = key1 if PLACEMENT[scheme] == "same-key" else sch.KeyGen()
+            if with_prelude:
+                prelude(rng)
+            edb2 = sch.EDBSetup(key2, copy.deepcopy(db))
+            m1 = slot_map(scheme, L, sch, cobj, key1, edb1, db)
+            m2 = slot_map(scheme, L, sch, cobj, key2, edb2, db)
+            levels1 = {lvl: len(b) for lvl, b in edb1.A_dict.items()} if scheme == "DP17.Pi" else {}
     except Exception as e:
         acc.count("setup_failed")
         acc.note(f"{short}: placement setup failed {exc_site(e)}")
@@ -293,7 +332,7 @@ def run_placement_case(scheme, cid, cfg, db, acc, rng):
         for slots in b1.values():
             for (name, _) in slots:
                 lvl = int(name[name.index("[") + 1:-1])
-                cand = max(1, len(edb1.A_dict[lvl]) - 1)
+                cand = max(1, levels1[lvl] - 1)
                 log_p -= math.log10(cand)
         if log_p > -9:
             acc.count("placement.too_few_bucket_choices")
@@ -301,9 +340,10 @@ def run_placement_case(scheme, cid, cfg, db, acc, rng):
     else:
         same = m1 == m2
     if same:
-        acc.violation(f"{short}:placement-repeats",
-                      f"{scheme}: two setups of one database ({PLACEMENT[scheme]}) put all {nslots} array-resident "
-                      f"blocks of all {len(m1)} keywords at identical positions", case)
+        acc.violation(f"{short}:placement-repeats" + (":forked-workers" if forked else ""),
+                      f"{scheme}: two setups of one database ({PLACEMENT[scheme]}"
+                      + (", in two worker processes forked after the parent's own setup" if forked else "") +
+                      f") put all {nslots} array-resident blocks of all {len(m1)} keywords at identical positions", case)
     # input-order check: slots must not simply follow the processing order (first setup only)
     return True
 
@@ -386,7 +426,8 @@ def run_shard(spec, acc, ctx):
             if db is None:
                 acc.count("placement.config_skipped")
                 continue
-            if run_placement_case(scheme, cid, cfg, db, acc, rng):
+            n_pl = acc.counters.get("placement.cases." + gen.SHORT[scheme], 0)
+            if run_placement_case(scheme, cid, cfg, db, acc, rng, forked=(n_pl % 8 == 3)):
                 acc.add("distinct", sse.case_fp(scheme, cid, db))
             acc.count("cases")
             if first:
@@ -398,7 +439,7 @@ def run_shard(spec, acc, ctx):
 def replay(case, acc, ctx):
     scheme = case["scheme"]
     if case.get("db_class") == "placement":
-        run_placement_case(scheme, case["cfg_id"], case["cfg"], case["db"], acc, ctx.rng)
+        run_placement_case(scheme, case["cfg_id"], case["cfg"], case["db"], acc, ctx.rng, forked=bool(case.get("forked")))
     else:
         run_sorted_case(scheme, case["cfg_id"], case["cfg"], case.get("db_class", "?"), case["db"], acc, ctx.rng)
     acc.count("replayed")
@@ -408,6 +449,8 @@ def finish(m, tier, seed):
     c = m["counters"]
     inc = []
     per = {}
+    if c.get("placement.forked_pairs", 0) < 10:
+        inc.append("placement was not compared across forked workers")
     for s in gen.SORTED_TABLE_SCHEMES:
         short = gen.SHORT[s]
         per[short] = {"tables_checked": c.get("tables_checked." + short, 0),
@@ -447,6 +490,7 @@ def finish(m, tier, seed):
         "slot_map_comparisons": c.get("slot_map_comparisons", 0),
         "keywords_with_different_slots": c.get("keywords_with_different_slots", 0),
         "setup_failed": c.get("setup_failed", 0),
+        "placement_pairs_built_in_forked_workers": c.get("placement.forked_pairs", 0),
         "placement_cases_preceded_by_the_all_scheme_prelude": c.get("placement.with_prelude", 0),
         "tables_with_more_than_65536_entries": c.get("big_table_cases", 0),
         "dp17_shared_buckets": pairs,
